@@ -6,6 +6,9 @@ def T(shards=8, procs=2, timeout=600, **kw):
     return d
 
 CHECKS = {
+    "C17": {"pkg": "c17", "level": "exploration",
+            "quick": T(8, 2, 600), "thorough": T(14, 1, 2400),
+            "assumptions": ["timer law checked at the granularity of emissions on the injected PacketConn, on the virtual clock", "flight intervals above 60 s are not generated"]},
     "C09": {"pkg": "c09", "level": "exploration",
             "quick": T(8, 2, 600), "thorough": T(14, 1, 2400),
             "assumptions": ["emission order = order of WriteTo calls on the injected PacketConn", "interleavings of concurrent writers are whatever the Go scheduler produces inside the bubble"]},
